@@ -11,6 +11,9 @@
   * `c16_puback` / `c16_pubrec` / `c16_pubrel` / `c16_pubcomp`: in the state that awaits it, each
     acknowledgement is relayed once with the same message ID and moves the exchange on; in any
     other state (a duplicate after loss) it is ignored — so the broker sees each once.
+  * **all runs** — `c16_retry_counter_bounded`: in EVERY reachable state the retry counter of every
+    gateway-initiated exchange is at most RetryCount (invariant `AllB`, frame `FB` of `Lemmas/GwRetry.lean`
+    carried through every model function): no step is ever retransmitted more than RetryCount times.
   The monitor `Spec.c16` checks the retransmission rules on every implementation trace.
 
   CLIENT HALF (the client model, ALL states) — "the client's handler run exactly once":
@@ -29,6 +32,8 @@ import Bisquitt.Lemmas.GwSt
 import Bisquitt.Lemmas.GwEmits
 import Bisquitt.Spec.Gateway
 import Bisquitt.Props.C17
+import Bisquitt.Props.C08
+import Bisquitt.Lemmas.GwRetry
 
 namespace Bisquitt.Gw
 open Bisquitt Gw
@@ -113,6 +118,204 @@ theorem c16_pubcomp (g : Gw) (h : g.st = .active) (mid : UInt16) (t : Tx) (st : 
   unfold handleSn
   have : (!g.packetLegal (.pubcomp mid)) = false := by unfold packetLegal; simp [h]
   simp [this, hl, hk]
+
+end Bisquitt.Gw
+
+namespace Bisquitt.Gw
+open Bisquitt Gw
+
+/-! ## every run: the retry counter of an exchange never exceeds RetryCount -/
+
+theorem FB.finishSession (g : Gw) : FB g g.finishSession := by
+  unfold Gw.finishSession
+  split
+  · split
+    · exact FB.refl g
+    · unfold Gw.shutdownDisconnect Gw.stopTimers Gw.emitEnd
+      have h1 : ∀ x : Gw, FB x (if x.st = .active ∨ x.st = .awake then x.emit (.sn (encode (.disconnect 0))) else x) := by
+        intro x; split
+        · exact FB.emit x _
+        · exact FB.refl x
+      have h2 : ∀ x : Gw, FB x ((x.emit (.ended x.endCls)).emit .mqClose) := fun x => (FB.emit x _).trans (FB.emit _ _)
+      refine (((FB.setNow g _).trans (h1 _)).trans (h2 _)).trans ⟨rfl, fun hA => ?_⟩
+      intro t ht
+      simp only [List.mem_map] at ht
+      obtain ⟨y, hy, rfl⟩ := ht
+      exact hA y hy
+  · exact FB.refl g
+
+theorem FB.advance : ∀ (fuel : Nat) (g : Gw) (t : Nat), FB g (advance fuel g t) := by
+  intro fuel
+  induction fuel with
+  | zero => intro g t; exact FB.setNow g _
+  | succ n ih =>
+    intro g t
+    unfold Gw.advance
+    split
+    · exact (FB.finishSession g).trans (FB.setNow _ _)
+    · split
+      · exact ((FB.fireDue g _).trans (FB.finishSession _)).trans (ih _ t)
+      · exact FB.setNow g _
+
+theorem FB.sample (g : Gw) : FB g g.sample := by
+  unfold Gw.sample Gw.sampleBuf Gw.sampleReg Gw.sampleState
+  have e : ∀ (x y : Gw) (o : Out), isMqConnect (y.now, o) = false → y.cfg = x.cfg → y.txs = x.txs → y.outs = x.outs →
+      FB x (y.emit o) := fun x y o _ hc ht hou => (FB.of_eq hc hou ht).trans (FB.emit y o)
+  split <;> split <;> split <;>
+    first
+    | exact FB.refl g
+    | exact (e _ _ _ rfl rfl rfl rfl)
+    | exact (e _ _ _ rfl rfl rfl rfl).trans (e _ _ _ rfl rfl rfl rfl)
+    | exact ((e _ _ _ rfl rfl rfl rfl).trans (e _ _ _ rfl rfl rfl rfl)).trans (e _ _ _ rfl rfl rfl rfl)
+
+
+theorem FB.handleSn (g : Gw) (p : Pkt) : FB g (g.handleSn p) := by
+  unfold Gw.handleSn
+  split
+  · exact FB.fail g _
+  · split
+    · exact FB.handleConnect g _ _ _ _
+    · split
+      · exact FB.connAuth g _ _ _ _ _
+      · exact FB.refl g
+    · split
+      · exact FB.connWillTopic g _ _ _ _ _ _
+      · exact FB.refl g
+    · split
+      · exact FB.connWillMsg g _ _ _ _
+      · exact FB.refl g
+    · exact FB.handleRegister g _ _
+    · exact FB.handleClientPublish g _ _ _ _ _ _ _
+    · exact FB.mqttSend g _
+    · exact FB.handleSubscribe g _ _ _ _ _ _
+    · exact FB.handleUnsubscribe g _ _ _ _
+    · exact FB.handlePingreq g
+    · exact FB.handleDisconnect g _
+    · split
+      · split
+        · exact FB.bpRegack g _ _ _ _ _ _
+        · exact FB.refl g
+      · exact FB.refl g
+    · split
+      · split
+        · split
+          · exact FB.refl g
+          · split
+            · exact FB.finishTx g _
+            · exact FB.proceedMQ g _ _ _
+        · exact FB.refl g
+      · exact FB.refl g
+    · split
+      · split
+        · split
+          · exact FB.refl g
+          · exact FB.proceedMQ g _ _ _
+        · exact FB.refl g
+      · exact FB.refl g
+    · split
+      · split
+        · split
+          · exact FB.refl g
+          · exact FB.proceedMQ g _ _ _
+        · exact FB.refl g
+      · exact FB.refl g
+    · exact FB.fail g _
+
+theorem FB.handleMq (g : Gw) (p : MqPkt) : FB g (g.handleMq p) := by
+  unfold Gw.handleMq
+  split
+  · split
+    · rename_i t st f hc
+      exact FB.connConnack g t st _
+    · exact FB.refl g
+  · split
+    · split
+      · exact (FB.finishTx g _).trans (FB.snSend _ _ _)
+      · exact FB.refl g
+    · exact FB.refl g
+  · exact FB.snSend g _ _
+  · exact FB.snSend g _ _
+  · split
+    · split
+      · split
+        · split
+          · exact (FB.finishTx g _).trans (FB.snSend _ _ _)
+          · exact (FB.finishTx g _).trans (FB.snSend _ _ _)
+        · exact (FB.finishTx g _).trans (FB.fail _ _)
+      · exact FB.refl g
+    · exact FB.refl g
+  · exact FB.snSend g _ _
+  · split
+    · exact FB.of_eq rfl rfl rfl
+    · split
+      · exact FB.refl g
+      · exact FB.snSend g _ _
+  · exact FB.handleBrokerPublish g _ _ _ _ _ _
+  · split
+    · split
+      · split
+        · exact FB.refl g
+        · exact FB.proceedSN g _ _ _
+      · exact FB.refl g
+    · exact FB.refl g
+  · exact FB.fail g _
+
+
+theorem FB.handleEvent (g : Gw) (ev : Event) : FB g (g.handleEvent ev) := by
+  unfold Gw.handleEvent
+  split
+  · split
+    · exact (FB.handleSn g _).trans (FB.keepBrokerAlive _)
+    · exact FB.fail g _
+  · exact FB.handleMq g _
+  · exact FB.fail g _
+  · split <;> exact FB.fail g _
+  · exact FB.fail g _
+  · exact FB.refl g
+
+theorem FB.step (g : Gw) (t : Nat) (ev : Event) : FB g (g.step t ev) := by
+  unfold Gw.step Gw.stepCore Gw.deliver
+  have q1 := FB.advance 100000 g t
+  split
+  · exact (q1.trans (FB.finishSession _)).trans (FB.sample _)
+  · exact ((((q1.trans (FB.handleEvent _ ev)).trans (FB.advance 100000 _ t)).trans (FB.finishSession _))).trans (FB.sample _)
+
+/-- **C16 (ALL runs, gateway half).** In every reachable state every gateway-initiated exchange has made at most
+    RetryCount retransmissions of its current step: the counter `c16_retry_resends` increments never exceeds the
+    configured budget, whatever the client, the broker and the clock do (`c16_retry_gives_up`: when it is used up
+    the expiry sends nothing and the exchange ends). -/
+theorem c16_retry_counter_bounded (cfg : Cfg) (a b : UInt16) (evs : List (Nat × Event)) (t : Tx)
+    (ht : t ∈ ((Gw.init cfg a b).run evs).txs) (q : UInt8) (st : BpSt) (d : BpData) (snp : Option Pkt) (n : Nat)
+    (hk : t.kind = .brokerPub q st d snp n) : n ≤ cfg.retryCount := by
+  have gen : ∀ (evs : List (Nat × Event)) (g : Gw), AllB g →
+      AllB (evs.foldl (fun g (te : Nat × Event) => g.step te.1 te.2) g) ∧
+      (evs.foldl (fun g (te : Nat × Event) => g.step te.1 te.2) g).cfg = g.cfg := by
+    intro evs
+    induction evs with
+    | nil => intro g h; exact ⟨h, rfl⟩
+    | cons e rest ih =>
+      intro g h
+      simp only [List.foldl_cons]
+      have st := FB.step g e.1 e.2
+      have r := ih _ (st.keep h)
+      exact ⟨r.1, r.2.trans st.cfg⟩
+  have h0 : AllB (Gw.init cfg a b) := by intro x hx; simp [Gw.init] at hx
+  have h := gen evs (Gw.init cfg a b) h0
+  have hrun : (Gw.init cfg a b).run evs = evs.foldl (fun g (te : Nat × Event) => g.step te.1 te.2) (Gw.init cfg a b) := rfl
+  rw [hrun] at ht
+  have := h.1 t ht q st d snp n hk
+  rw [h.2] at this
+  exact this
+
+/-- non-vacuity: RetryDelay 200 ms, RetryCount 2; a QoS-1 message from the broker is never acknowledged by the client:
+    500 ms later the exchange has made its two retransmissions (counter at the bound), later it is finished -/
+example :
+    let g := (Gw.init ⟨false, none, none, 200, 2, []⟩ 1 10).run
+      [(100, .sn (encode (.connect false true 1 60 [0x63]))), (200, .mq (.connack 0)),
+       (300, .mq (.publish false 1 false 5 [0x61, 0x62] [0x42])), (800, .tick)]
+    (g.txs.filterMap fun t => match t.kind with | .brokerPub q _ _ _ n => some (q, n, t.done) | _ => none) = [(1, 2, false)] ∧
+    ((g.run [(2000, .tick)]).txs.filterMap fun t => match t.kind with | .brokerPub q _ _ _ n => some (q, n, t.done) | _ => none) =
+      [(1, 2, true)] := by decide
 
 end Bisquitt.Gw
 
